@@ -290,7 +290,16 @@ func Alphabet(t *Type, reduced bool) []*V {
 		if len(e) > 2 {
 			// entries whose values all differ from one another (and are rarely empty): what an order-dependent
 			// fold over the entries needs to show
-			z, m := e[len(e)-1], e[len(e)/2]
+			// (the null member of a nullable union has its own position in the union's alphabet: not here)
+			pick := func(i int) *V {
+				for ; i > 0; i-- {
+					if !(e[i].T.Base().Kind == Union && e[i].Alias == "") {
+						return e[i]
+					}
+				}
+				return e[0]
+			}
+			z, m := pick(len(e)-1), pick(len(e)/2)
 			out = append(out, VMap(t, "k1", x, "k2", z).D("map:two-distinct"), VMap(t, "k1", m, "k2", z, "k3", x).D("map:three-distinct"))
 		}
 		for i, k := range Strings(reduced) {
